@@ -200,6 +200,9 @@ Fixpoint dedup (l : list string) : list string :=
   | x :: r => if str_in x r then dedup r else x :: dedup r
   end.
 Definition dup_idents : list string := dedup (filter dup_listed all_idents).
+(* the duplicated identifiers recorded as open known finding C17-dup-ident (known/C17.json): a
+   duplicated identifier outside this list is a new defect, not a known one *)
+Definition known_dup_idents : list string := ["c"%string].
 
 Definition unit_eqb (a b : unit) : bool := u_idx a =? u_idx b.
 Definition resolves_to (s : string) (u : unit) : bool :=
@@ -256,7 +259,7 @@ Definition temp_probes_ok : bool :=
 (* ------------------------------------------------------------------ prefixed names *)
 Definition metric_prefixes : list (string * Z) :=
   [("yotta", 24); ("zetta", 21); ("exa", 18); ("peta", 15); ("tera", 12); ("giga", 9); ("mega", 6);
-   ("kilo", 3); ("hecto", 2); ("deca", 1); ("deka", 1); ("deci", -1); ("centi", -2); ("milli", -3);
+   ("kilo", 3); ("hecto", 2); ("hect", 2); ("deca", 1); ("deka", 1); ("deci", -1); ("centi", -2); ("milli", -3);
    ("micro", -6); ("nano", -9); ("pico", -12); ("femto", -15); ("atto", -18); ("zepto", -21); ("yocto", -24)]%string.
 Definition binary_prefixes : list (string * Z) :=
   [("kibi", 10); ("mebi", 20); ("gibi", 30); ("tebi", 40); ("pebi", 50); ("exbi", 60); ("zebi", 70); ("yobi", 80)]%string.
@@ -272,12 +275,12 @@ Fixpoint strip_prefix (p s : string) : option string :=
   end.
 Definition is_linear (u : unit) : bool := match u_conv u with Linear _ => true | _ => false end.
 
-(* every (u, b, k): some identifier of the linear unit u reads  dim ++ prefix ++ rest  (dim one of
-   "", "square ", "cubic "; rest non-empty) and  dim ++ rest  is an identifier of another linear unit b
-   of the same category; k = prefix exponent * dimension *)
+(* every (u, b, k): some identifier of the unit u reads  dim ++ prefix ++ rest  (dim one of "",
+   "square ", "cubic "; rest at least 3 bytes long) and  dim ++ rest  is an identifier of another unit b
+   (of ANY category: that u and b share a category is part of the theorem);
+   k = prefix exponent * dimension *)
 Definition prefix_hits (table : list (string * Z)) : list (unit * unit * Z) :=
   flat_map (fun u =>
-    if is_linear u then
       flat_map (fun i =>
         flat_map (fun dd : string * Z =>
           match strip_prefix (fst dd) i with
@@ -285,14 +288,17 @@ Definition prefix_hits (table : list (string * Z)) : list (unit * unit * Z) :=
           | Some tail =>
               flat_map (fun pk : string * Z =>
                 match strip_prefix (fst pk) tail with
-                | None | Some EmptyString => []
+                | None => []
                 | Some rest =>
-                    map (fun b => (u, b, snd pk * snd dd))
-                        (filter (fun b => (negb (unit_eqb b u) && String.eqb (u_cat b) (u_cat u) && is_linear b &&
-                                           str_in (fst dd ++ rest)%string (u_ids b))%bool) all_units)
+                    if Nat.leb 3 (String.length rest) then
+                      map (fun b => (u, b, snd pk * snd dd))
+                          (filter (fun b => (negb (unit_eqb b u) && str_in (fst dd ++ rest)%string (u_ids b))%bool)
+                                  all_units)
+                    else []
                 end) table
-          end) dim_words) (u_ids u)
-    else []) all_units.
+          end) dim_words) (u_ids u)) all_units.
+Definition same_linear_category (u b : unit) : bool :=
+  (String.eqb (u_cat u) (u_cat b) && is_linear u && is_linear b)%bool.
 
 (* the coefficient as typed (shortest decimal) and as held (exact value of the f64) *)
 Definition coef_dec (u : unit) : Q := match coef_of u with Some c => lit_Q c | None => 0%Q end.
